@@ -36,7 +36,7 @@ def mutants_table():
     out = ["| mutant (scratch tree only) | file | repository's own tests | caught by (quick tier) | missed by |", "|---|---|---|---|---|"]
     for name, r in last.items():
         st = r.get("status")
-        if st == "CAUGHT-BY-EXISTING-TESTS":
+        if st == "CAUGHT-BY-EXISTING-TESTS" or "also caught by the repository" in (st or ""):
             base = "fail (already caught there)"
         elif st in ("DOES-NOT-BUILD", "PATCH-DOES-NOT-APPLY"):
             base = st.lower()
